@@ -644,7 +644,7 @@ def in_domain(rt, pks):
     if rt == 3:
         return n == 4
     if rt == 4:
-        return n == 4 and kind == "ecc"       # RSA with the v2 table is refused by SPSDK (see report); not asserted
+        return n == 4
     if rt == 5:
         return True
     return False
@@ -688,6 +688,10 @@ def oracle(c, r, pub):
         if h[0] == "e":
             if any(supply_id(e) == 1 for e in encs) and False:
                 return None
+            if rt == 4 and pks[0][0] == "rsa":
+                return (f"{op}:{name}:rejects-valid-rsa",
+                        f"{c['family']}: four RSA-{pks[0][1].bit_length()} keys are refused ({h}): SRKRecordV2.verify compares the exponent "
+                        f"length with the modulus length")
             return (f"{op}:{name}:rejects-valid", f"{c['family']} keys {c['keys']} -> {h}")
         got = bytes.fromhex(h[1])
         if rt in (3, 4):
